@@ -92,7 +92,9 @@ LEVEL_NOTE = ('Fixpoint reached in every run (stat bfs_fixpoint_reached = bfs_ru
 
 def VACUITY(tier):
     return {
-        'bfs_fixpoint_reached': len(shards(tier, 0)),
+        'bfs_fixpoint_reached': len(runs(tier, 0)),
+        'large_history_operations': 500,
+        'from_networkx_orders': 5000,
         'states': 1500 if tier == 'quick' else 100000,
         'transitions': 100000 if tier == 'quick' else 1000000,
         'op:Graph.add_edge:legal-new:accepted': 100,
@@ -950,10 +952,195 @@ def runs(tier, seed):
     return out
 
 
+# ------------------------------------------------------------- large graphs --
+# One long scripted history per graph type on 300 vertices (beyond CPython's
+# small-integer cache, two- and three-digit vertices).  Every argument is a
+# FRESH int object (int(str(x))), as it is when vertices come from a file or
+# from arithmetic.  Same oracle as the BFS: legal insertions succeed, illegal
+# ones raise ValueError without side effect, all views agree with the model.
+def _fresh(x):
+    return int(str(x))
+
+
+def large_history(kind):
+    n = 300
+    ops = []
+    hot = [1, 2, 9, 10, 11, 99, 100, 255, 256, 257, 258, 299, 300]
+    for a in hot:                       # self loops / equal endpoints
+        ops.append(('add', a, a))
+    for a in hot:
+        for b in hot:
+            if (a * 7 + b * 3) % 5 < 2:
+                ops.append(('add', a, b))
+    for i in range(1, 300, 7):          # a long path with steps of 1 and 257
+        ops.append(('add', i, i + 1))
+        ops.append(('add', i, (i + 256) % 300 + 1))
+    for a in (0, -1, 301, 302):         # out of range
+        ops.append(('add', a, 5))
+        ops.append(('add', 5, a))
+    for a in hot:                       # duplicates in both orientations
+        for b in hot[:4]:
+            ops.append(('add', b, a))
+    if kind == 'simple':
+        for a in hot[::2]:
+            for b in hot[1::2]:
+                ops.append(('remove', a, b))
+        ops.append(('grow', 303, 0))
+        ops.append(('add', 301, 302))
+        ops.append(('add', 303, 257))
+        ops.append(('add', 302, 302))
+        ops.append(('remove', 303, 257))
+    return n, ops
+
+
+def check_large(case):
+    from cnfgen.graphs import Graph, DirectedGraph, BipartiteGraph
+    kind = case['kind']
+    n, ops = large_history(kind)
+    if kind == 'simple':
+        G = Graph(_fresh(n))
+    elif kind == 'directed':
+        G = DirectedGraph(_fresh(n))
+    else:
+        G = BipartiteGraph(_fresh(n), _fresh(n))
+    E = set()
+    dims = [n, n]
+    V = Views(CLSNAME[kind], prefix='large:')
+
+    def legal(u, v):
+        if kind == 'simple':
+            return 1 <= u <= dims[0] and 1 <= v <= dims[0] and u != v
+        if kind == 'directed':
+            return 1 <= u <= dims[0] and 1 <= v <= dims[0]
+        return 1 <= u <= dims[0] and 1 <= v <= dims[1]
+
+    def norm_edge(u, v):
+        return (min(u, v), max(u, v)) if kind == 'simple' else (u, v)
+    for step, (op, a, b) in enumerate(ops):
+        if op == 'add':
+            before = _call(G.number_of_edges)
+            got = _call(G.add_edge, _fresh(a), _fresh(b))
+            if legal(a, b):
+                if got[0] == 'exc':
+                    V.bad('add_edge', 'legal:refused', 'add_edge(%d,%d) raised %s at step %d' % (a, b, got[1], step))
+                else:
+                    E.add(norm_edge(a, b))
+            else:
+                if got[0] != 'exc':
+                    V.bad('add_edge', 'illegal:accepted', 'add_edge(%d,%d) accepted at step %d' % (a, b, step))
+                elif got[1] != 'ValueError':
+                    V.bad('add_edge', 'illegal:exception:' + got[1], 'add_edge(%d,%d) raised %s' % (a, b, got[1]))
+                elif _call(G.number_of_edges) != before:
+                    V.bad('add_edge', 'refused-with-side-effect', 'edge count changed by refused add_edge(%d,%d)' % (a, b))
+        elif op == 'remove':
+            got = _call(G.remove_edge, _fresh(a), _fresh(b))
+            if got[0] == 'exc' and got[1] != 'ValueError':
+                V.bad('remove_edge', 'exception:' + got[1], 'remove_edge(%d,%d) raised %s' % (a, b, got[1]))
+            elif got[0] != 'exc':
+                E.discard(norm_edge(a, b))
+        elif op == 'grow':
+            got = _call(G.update_vertex_number, _fresh(a))
+            if got[0] == 'exc':
+                V.bad('update_vertex_number', 'exception:' + got[1], 'update_vertex_number(%d) raised' % a)
+            else:
+                dims[0] = max(dims[0], a)
+        if V.problems:
+            break
+    if not V.problems:
+        if kind == 'simple':
+            check_simple(G, dims[0], E, V)
+        elif kind == 'directed':
+            check_directed(G, dims[0], E, V)
+        else:
+            check_bipartite(G, (dims[0], dims[1]), E, V, kind)
+    return [{'key': k, 'what': w[:400], 'case': dict(case)} for (k, w) in V.problems[:6]], len(ops)
+
+
+# ---------------------------------------------- from_networkx, any node order --
+def nx_bipartite(L, Rr, edges, order, orient):
+    import networkx
+    G = networkx.Graph()
+    lefts = [('l', i) for i in range(1, L + 1)]
+    rights = [('r', j) for j in range(1, Rr + 1)]
+    if order == 'right-first':
+        seq = rights + lefts
+    elif order == 'interleaved':
+        seq = []
+        for t in range(max(L, Rr)):
+            if t < Rr:
+                seq.append(rights[t])
+            if t < L:
+                seq.append(lefts[t])
+    else:
+        seq = lefts + rights
+    for side, i in seq:
+        G.add_node('%s%02d' % (side, i), bipartite=0 if side == 'l' else 1)
+    for k, (u, v) in enumerate(edges):
+        a, b = 'l%02d' % u, 'r%02d' % v
+        if orient == 'rl' or (orient == 'mixed' and k % 2):
+            a, b = b, a
+        G.add_edge(a, b)
+    return G
+
+
+def check_from_networkx(case):
+    """BipartiteGraph.from_networkx numbers each side in order of appearance;
+    whatever the relative order of the two sides and the orientation in which
+    an edge is stored, vertices and edges must be preserved."""
+    from cnfgen.graphs import BipartiteGraph
+    L, Rr, edges = case['L'], case['R'], [tuple(e) for e in case['edges']]
+    out = []
+    for order in ('left-first', 'right-first', 'interleaved'):
+        for orient in ('lr', 'rl', 'mixed'):
+            try:
+                B = BipartiteGraph.from_networkx(nx_bipartite(L, Rr, edges, order, orient))
+                got = (B.left_order(), B.right_order(), sorted(map(tuple, B.edges())))
+            except Exception as e:
+                out.append({'key': 'BipartiteGraph.from_networkx:%s:exception:%s' % (order, type(e).__name__),
+                            'what': '%r for a %dx%d graph with edges %r (%s, %s)' % (e, L, Rr, edges, order, orient),
+                            'case': dict(case)})
+                continue
+            if got != (L, Rr, sorted(edges)):
+                out.append({'key': 'BipartiteGraph.from_networkx:%s:edges-differ' % order,
+                            'what': 'got %r, the networkx graph (%s, edges stored %s) has %r' %
+                            (got, order, orient, (L, Rr, sorted(edges))), 'case': dict(case)})
+    return out
+
+
+def run_extra(args, R):
+    import engine.scope as scope_
+    if args['what'] == 'large':
+        vs, nops = check_large({'part': 'large', 'kind': args['kind']})
+        R.stats['large_history_operations'] += nops
+        R.stats['transitions'] += nops
+        R.stats['states'] += 1
+        R.stats['executions'] += nops
+        R.case(sample={'part': 'large', 'kind': args['kind'], 'operations': nops}, nontrivial=True)
+        R.extend(vs)
+        return
+    sizes = [(L, Rr) for L in range(0, 4) for Rr in range(0, 4)]
+    for (L, Rr) in sizes:
+        for es in scope_.bipartite_graphs(L, Rr):
+            case = {'part': 'nx', 'L': L, 'R': Rr, 'edges': [list(e) for e in es]}
+            R.extend(check_from_networkx(case))
+            R.stats['from_networkx_orders'] += 9
+            R.stats['executions'] += 9
+            R.case(sample=case if R.evals % 300 == 0 else None, nontrivial=len(es) > 0)
+    for (L, Rr, es) in [(2, 11, [(1, 10), (2, 11), (1, 2)]), (11, 2, [(10, 1), (11, 2), (2, 1)]),
+                        (12, 12, [(1, 12), (12, 1), (10, 2), (2, 10), (11, 11)])]:
+        case = {'part': 'nx', 'L': L, 'R': Rr, 'edges': [list(e) for e in es]}
+        R.extend(check_from_networkx(case))
+        R.case(sample=case, nontrivial=True)
+
+
 def shards(tier, seed):
-    return [('%02d:%s' % (i, lab), 'run_bfs',
-             {'kind': kind, 'init': init, 'cap': cap, 'afe': afe})
-            for i, (lab, kind, init, cap, afe) in enumerate(runs(tier, seed))]
+    out = [('%02d:%s' % (i, lab), 'run_bfs',
+            {'kind': kind, 'init': init, 'cap': cap, 'afe': afe})
+           for i, (lab, kind, init, cap, afe) in enumerate(runs(tier, seed))]
+    for kind in ('simple', 'directed', 'bipartite'):
+        out.append(('large:' + kind, 'run_extra', {'what': 'large', 'kind': kind}))
+    out.append(('nx-orders', 'run_extra', {'what': 'nx'}))
+    return out
 
 
 MAX_STATES = 200000
@@ -1032,6 +1219,10 @@ def _short(history):
 
 
 def replay(case):
+    if case.get('part') == 'large':
+        return check_large(case)[0]
+    if case.get('part') == 'nx':
+        return check_from_networkx(case)
     OBS.clear()
     st0, v = _initial_or_violation(case)
     if v is not None:
